@@ -92,6 +92,16 @@ type Result struct {
 	Parents map[string]string `json:"parents"`
 	// Branches: how often each branch of the pairwise rule / the stale-pointer rule decided on this table
 	Branches map[string]int `json:"rule_branches"`
+	// Claims: run-time checkable lockset claims (site, mutex expression), see instrument.go
+	Claims []Claim `json:"claims"`
+}
+
+type Claim struct {
+	File string `json:"file"`
+	Off  int    `json:"off"` // byte offset of the enclosing statement
+	Site string `json:"site"`
+	Expr string `json:"expr"`
+	Lock string `json:"lock"`
 }
 
 func keyBase(k lockKey) (string, string) {
@@ -486,6 +496,7 @@ func (a *analyzer) solve() *Result {
 				ol, _, _ := lockRefs(o, eff(entry[u], o.st))
 				racy = len(ol) == 0 && !o.init
 			}
+			a.claims(res, u, ac, locks)
 			hb := append([]string{}, ac.hb...)
 			sort.Strings(hb)
 			for _, t := range ths {
